@@ -37,13 +37,13 @@ TEXT = {
  "C05": dict(
    engine="hv", design_ref="DESIGN.md 3.C05",
    technique="hostile-input runtime monitoring: panic hook + overflow/debug-assertion build + process-exit monitor + handler-side independent validity predicate; ASan overlay",
-   level_text="Grammar-aware hostile byte streams with up to 40 descriptors at arbitrary positions are fed to the real BackendReqHandler after random negotiation histories; the monitors are a panic hook (harness built with overflow checks and debug assertions), the driver watching for signals, and the recording handler checking every invocation against the validity rules of the statement. Directed cases cover every invalid-argument class named in the statement.",
+   level_text="Grammar-aware hostile byte streams with up to 40 descriptors at arbitrary positions are fed to the real BackendReqHandler after random negotiation histories; the monitors are a panic hook (harness built with overflow checks and debug assertions), the driver watching for signals, and the recording handler checking every invocation against the validity rules of the statement. Directed cases cover every invalid-argument class named in the statement. A directed sweep attaches 0..=3 descriptors to every dispatched request kind (and to the three ring-descriptor messages in their no-descriptor form): any count other than the prescribed one must be rejected without a handler invocation.",
    level_note="Sampled input space (no coverage guidance). The daemon half of the property (well-typed adversarial control messages to a running VhostUserDaemon) is a separate unit in the hd harness.",
  ),
  "C06": dict(
    engine="hv", design_ref="DESIGN.md 3.C06",
    technique="reply-mutation monitoring by a scripted raw peer (one dimension at a time) + hostile streams to the frontend request server; panic hook; value-provenance check on every Ok",
-   level_text="For every request type of Frontend, Backend proxy and GpuBackend the correct reply is mutated in one dimension (every other request code, REPLY cleared, each flag bit, version, size with framing-consistent body, invalid bodies per validator, 0..=3 descriptors) and the call must fail whenever a conjunct named in the statement is broken, never panic, and any Ok value must consist of bytes the peer sent. The FrontendReqHandler gets hostile streams and well-framed requests with 0..=3 descriptors.",
+   level_text="For every request type of Frontend, Backend proxy and GpuBackend the correct reply is mutated in one dimension (every other request code, REPLY cleared, each flag bit, version, size with framing-consistent body, invalid bodies per validator, 0..=3 descriptors) and the call must fail whenever a conjunct named in the statement is broken, never panic, and any Ok value must consist of bytes the peer sent. The FrontendReqHandler gets hostile streams and well-framed requests with 0..=3 descriptors. Structured requests to the frontend request server are also sent with malformed headers (REPLY set, version 2, size+1): never dispatched.",
    level_note="Left open (observed): NEED_REPLY set on a reply, version/reserved bits, replies whose size field is larger than the body type with consistent trailing bytes.",
  ),
  "C09": dict(
@@ -91,7 +91,7 @@ TEXT = {
  "C16": dict(
    engine="hd", design_ref="DESIGN.md 3.C16",
    technique="fault/crash-point enumeration with hold points in the daemon thread and the shutdown path; wait() watched for a /proc deadlock certificate; peer-side EOF observation; thread census",
-   level_text="The daemon thread is parked at each position (idle in header read, before a request, header received/body pending, inside the handler, after the reply, after the peer left, after exit) and 1-3 shutdown requests are interleaved with it in every order of their two steps; wait() must return Ok, the peer must see end-of-stream and a new connection must be served. Without shutdown, a peer close at every byte offset of several requests must make wait() report an error; serve() must treat clean/partial-header disconnects as success and raise every exit event; dropping the daemon must leave no thread.",
+   level_text="The daemon thread is parked at each position (idle in header read, before a request, header received/body pending, inside the handler, after the reply, after the peer left, after exit) and 1-3 shutdown requests are interleaved with it in every order of their two steps; wait() must return Ok, the peer must see end-of-stream and a new connection must be served. Without shutdown, a peer close at every byte offset of several requests must make wait() report an error; serve() must treat clean/partial-header disconnects as success and raise every exit event; dropping the daemon must leave no thread. Disconnect cases alternate full close and half close (the peer keeps reading and must see end-of-stream once the daemon thread is gone); a well-formed request whose device handler fails must end the connection as well; a daemon thread that keeps burning CPU while wait() joins it is reported through the CPU-tick certificate.",
    level_note="wait() after a complete request whose reply fails with EPIPE is not judged (SocketBroken -> Ok by design).",
  ),
  "C17": dict(
